@@ -347,22 +347,26 @@ def check_random(run, flavour, n, label):
     rng = random.Random(run.seed * 7919 + {"scope": 1, "loop": 2, "err": 3}[flavour])
     progs = proggen.programs(rng, flavour, n)
     d = tempfile.mkdtemp(prefix="mrand-")
-    path = os.path.join(d, "progs.ndjson")
+    CH = 4000                      # programs per TLC run (one state per program; larger runs got slow)
+    recs = []
     try:
-        with open(path, "w") as f:
-            for p in progs:
-                f.write(json.dumps(p) + "\n")
-        res = run_tlc("MachineRand", env={"PROG_FILE": path}, timeout=3400)
-    finally:
-        try:
+        for c0 in range(0, len(progs), CH):
+            path = os.path.join(d, f"progs{c0}.ndjson")
+            with open(path, "w") as f:
+                for p in progs[c0:c0 + CH]:
+                    f.write(json.dumps(p) + "\n")
+            res = run_tlc("MachineRand", env={"PROG_FILE": path}, timeout=3400)
             os.remove(path)
-            os.rmdir(d)
-        except OSError:
-            pass
-    run.add_tlc(res, label)
+            run.add_tlc(res, label + (f" [{c0 + 1}..{min(c0 + CH, len(progs))}]" if len(progs) > CH else ""))
+            for rec in res.records("RUN"):
+                rec["id"][1] += c0
+                recs.append(rec)
+    finally:
+        import shutil
+        shutil.rmtree(d, ignore_errors=True)
     seen = set()
     m = 0
-    for rec in res.records("RUN"):
+    for rec in recs:
         k = rec["id"][1]
         if k in seen:
             continue
